@@ -18,7 +18,7 @@
           break opportunity; 8 monitor: break at a forbidden position; 9 monitor: lines do not
           stack; 10 malformed case (projection failed). *)
 From Verif Require Export Layout.LineBreak.
-From Coq Require Import List ZArith QArith Qminmax Bool NArith.
+From Coq Require Import List ZArith QArith Qminmax Qabs Bool NArith.
 Import ListNotations.
 Open Scope Z_scope.
 
@@ -83,7 +83,7 @@ Definition split_expect (emv maxw : Z) (items : list item) : Z * Z :=
 
 (* ---- monitor *)
 Definition is_solid_item (i : item) : bool :=
-  match i with Word _ | Atomic _ _ _ | Hard => true | _ => false end.
+  match i with Word _ | Atomic _ _ _ => true | _ => false end.
 
 (* number of cut positions strictly between the k-th solid item (1-based) and the next one:
    walk the list, `seen` = solids passed *)
@@ -119,9 +119,59 @@ Fixpoint mon (availq av : Q) (items : list item) (from : N) (ls : list mline) : 
            end
   end%N.
 
+(* ---- variants describing KNOWN FINDINGS exactly (known_findings.json): when the
+   implementation differs from the model but equals the model run on the transformed item
+   list, the disagreement is reported under its own code, so that the finding's matcher
+   accepts nothing else.
+   v_lead  (code 21): inline.go:249-303 skipFirstWhitespace encodes "leading collapsible space
+           skipped" as a resume position inside the inline boxes that start the line, and
+           splitInlineBox (isStart := skipStack == nil) then treats those boxes as
+           continuations: their start margin/border/padding is dropped.
+   v_br    (code 22): inline.go:307-320 removeLastWhitespace only looks at the last child of
+           the line; when that is a <br> the collapsible space before it is kept. *)
+Fixpoint opens_then_space (l : list item) : bool :=
+  match l with
+  | Open _ :: r => opens_then_space r
+  | Space m _ :: _ => collapses m
+  | _ => false
+  end.
+
+Fixpoint v_lead (ls : bool) (l : list item) : list item :=
+  match l with
+  | [] => []
+  | Open e :: r => (if ls && opens_then_space r then Open 0 else Open e) :: v_lead ls r
+  | Close e :: r => Close e :: v_lead ls r
+  | Hard :: r => Hard :: v_lead true r
+  | Space m w :: r => Space m w :: v_lead (ls && collapses m) r
+  | i :: r => i :: v_lead false r
+  end.
+
+Fixpoint br_follows (l : list item) (opened : bool) : bool :=
+  match l with
+  | Open _ :: r => br_follows r true
+  | Close _ :: r => br_follows r opened
+  | Hard :: _ => opened
+  | _ => false
+  end.
+
+Fixpoint v_br (l : list item) : list item :=
+  match l with
+  | [] => []
+  | Space m w :: r => (if collapses m && br_follows r false then Space Pre w else Space m w) :: v_br r
+  | i :: r => i :: v_br r
+  end.
+
+Definition para_check (cf : cfg) (items : list item) (out : list oline) : N :=
+  let k := lines_cmp (layout cf items) out in
+  if N.eqb k 0 || N.eqb k 2 then k
+  else if N.eqb (lines_cmp (layout cf (v_lead true items)) out) 0 then 21%N
+  else if N.eqb (lines_cmp (layout cf (v_br items)) out) 0 then 22%N
+  else if N.eqb (lines_cmp (layout cf (v_br (v_lead true items))) out) 0 then 23%N
+  else k.
+
 Definition check (c : case) : N :=
   match c with
-  | CPara cf items out => lines_cmp (layout cf items) out
+  | CPara cf items out => para_check cf items out
   | CSplit exact emv maxw items len resume w =>
       if (resume =? 0) || ((resume >? 0) && (resume <? len)) || (len <? 0) then 5%N
       else if exact then
